@@ -113,9 +113,17 @@ func vReplicas(name string) *intstr.IntOrString {
 // vSteps builds n canary steps: replicas int/percent; the step at index `full` (0-based; -1 = all) also varies its
 // traffic weight / header match and pause duration, the others have neither (the step functions only look at the
 // current step, and at the replicas of a jump target).
+// vSimple: harnesses that do not look at the steps use percent-only replicas without traffic or pause.
+var vSimple = false
+
 func vSteps(n int, full int) []v1beta1.CanaryStep {
 	var steps []v1beta1.CanaryStep
 	for i := 0; i < n; i++ {
+		if vSimple {
+			v := intstr.FromString(fmt.Sprintf("%d%%", verifrt.IntRange("step.replicas.percent", 0, 100)))
+			steps = append(steps, v1beta1.CanaryStep{Replicas: &v})
+			continue
+		}
 		st := v1beta1.CanaryStep{Replicas: vReplicas("step.replicas")}
 		if full >= 0 && i != full {
 			steps = append(steps, st)
